@@ -167,6 +167,10 @@ BODIES = {
     "sumMix": (lambda U: cal(ev(U, "Alpha"), ev(U, None, dtstart="20200122T100000Z", dtend="20200122T110000Z",
                                               extra=("RECURRENCE-ID:20200122T100000Z",))), "multi"),
     # components nested two levels deep: an alarm inside the event, STANDARD inside VTIMEZONE
+    # floating local times around the end of January (which side of the boundary they fall on
+    # depends on the zone of the query)
+    "float": (lambda U: cal(ev(U, "Floating", dtstart="20200131T233000", dtend="20200201T003000")), "plain"),
+    "floatIn": (lambda U: cal(ev(U, "Floating inside", dtstart="20200115T120000", dtend="20200115T130000")), "plain"),
     "weekly": (lambda U: cal(ev(U, "Weekly", dtstart="20200106T100000Z", dtend="20200106T110000Z",
                                extra=("RRULE:FREQ=WEEKLY;COUNT=4",))), "plain"),
     "alarm": (lambda U: cal(ev(U, "Alpha", extra=("BEGIN:VALARM", "ACTION:DISPLAY", "DESCRIPTION:ring",
@@ -270,16 +274,30 @@ class IndexSession:
 
     def _filter(self, xml):
         el = ET.fromstring(xml)
+        zone = getattr(self, "_zone", "")
+        if zone:
+            from zoneinfo import ZoneInfo
+            return caldav.parse_filter(el, CalendarFilter(ZoneInfo(zone)))
         return caldav.parse_filter(el, CalendarFilter(datetime.timezone.utc))
 
     def query(self, fname):
+        # "name@Zone": the same filter evaluated with that time zone as the query's zone (the
+        # CALDAV:timezone element of the request): floating and all-day values depend on it
+        fname, _, zone = fname.partition("@")
         xml = FILTERS[fname]
+        self._zone = zone
         st = self._store()
         err = ""
         got = None
         if self.level == "http":
-            body = ('<?xml version="1.0"?><C:calendar-query %s><D:prop><D:getetag/></D:prop>%s'
-                    '</C:calendar-query>' % (NS, xml)).encode("utf-8")
+            tzel = ""
+            if zone:
+                from xml.sax.saxutils import escape
+                from .calcases import VTZ
+                tzel = "<C:timezone>%s</C:timezone>" % escape("\r\n".join(
+                    ["BEGIN:VCALENDAR", "VERSION:2.0", "PRODID:-//verif//tz//EN"] + VTZ[zone] + ["END:VCALENDAR", ""]))
+            body = ('<?xml version="1.0"?><C:calendar-query %s><D:prop><D:getetag/></D:prop>%s%s'
+                    '</C:calendar-query>' % (NS, xml, tzel)).encode("utf-8")
             r = self.world.request("REPORT", "/user/calendars/q/",
                                    [("Content-Type", "text/xml"), ("Depth", "1")], body)
             if r.status == 207:
@@ -303,7 +321,7 @@ class IndexSession:
         except Exception:
             pass
         mgr = st.index_manager
-        self._rec({"op": "Query", "f": fname, "keys": sorted(set(keys)),
+        self._rec({"op": "Query", "f": fname, "zone": zone, "keys": sorted(set(keys)),
                    "got": got if got is not None else [], "goterr": err,
                    "want": want if want is not None else [], "wanterr": werr,
                    "avail": sorted(st.index.available_keys()),
@@ -376,13 +394,15 @@ def random_ops(seed, length=40):
                 (["noCompleted", "todoJan", "todo", "noTodo"], ["todo", "todoN", "todoDone", "jan"]),
                 (["sumEsc", "locEsc", "noSum", "fA"], ["esc", "sumMix", "jan", "empty", "m3"]),
                 (["hasRrule", "noRrule", "tJan", "fA"], ["weekly", "jan", "feb", "m1"]),
+                (["tJan", "tJan@Asia/Tokyo", "tJan@America/New_York", "tFeb@America/New_York", "tFeb"],
+                 ["float", "floatIn", "allday", "jan", "edge"]),
                 (["calAlarm", "calNoAlarm", "evAlarm", "evNoAlarm", "calStandard", "evAlarmAction"],
                  ["alarm", "alarmTz", "jan", "tz", "todo"])]
     bodies = list(BODIES)
     favoured = bodies
     if rng.random() < 0.6:
         fam, favoured = rng.choice(FAMILIES)
-        fam = [f for f in fam if f in FILTERS]
+        fam = [f for f in fam if f.partition("@")[0] in FILTERS]
         focus = rng.sample(fam, min(3, len(fam)))
     else:
         focus = rng.sample(fl, 3)
